@@ -212,11 +212,11 @@ func Harness_C02_block_seek() {
 }
 
 // Harness_C18_block: opening, scanning and seeking an arbitrary block never panics.
-// bounds: block bytes after the 4-byte header: 0..7 (thorough 0..10), all values; types r,i,o (g: see Harness_C18_logblock); header offset 0/24; table block size 0 (unaligned), exactly the buffer, or larger; seek key 0..2 bytes
+// bounds: block bytes after the 4-byte header: 0..6 (thorough 0..10), all values; types r,i,o (g: see Harness_C18_logblock); header offset 0/24; table block size 0 (unaligned), exactly the buffer, or larger; seek key 0..2 bytes
 // covers: done, rejected
 func Harness_C18_block() {
 	headerOff := []int{0, 24}[VerifChoose(2)]
-	n := VerifIntRange(0, 7+3*VerifTier())
+	n := VerifIntRange(0, 6+4*VerifTier())
 	buf := make([]byte, headerOff+4+n)
 	typ := []byte{blockTypeRef, blockTypeIndex, blockTypeObj}[VerifChoose(3)]
 	buf[headerOff] = typ
